@@ -287,7 +287,12 @@ pub fn run(seed: u64, count: usize, max_n: usize, mode: &str, out: &mut impl Wri
                 let chunks = cuts.len() - 1;
                 let impose = chunks <= 12 && rng.chance(2, 3);
                 let threads = if impose { chunks.max(1) + rng.below(3) } else { rng.range(1, 16) };
-                let order = if impose { let mut o: Vec<usize> = (0..chunks).collect(); rng.shuffle(&mut o); Some(o) } else { None };
+                let order = if impose {
+                    // only chunks with at least one node ever report a job
+                    let mut o: Vec<usize> = (0..chunks).filter(|&j| cuts[j] < cuts[j + 1]).collect();
+                    rng.shuffle(&mut o);
+                    Some(o)
+                } else { None };
                 (How::Par { cuts: cuts.clone(), threads, order }, "par_cut", cuts)
             }
         };
